@@ -656,8 +656,8 @@ def R4(ctx: Ctx) -> RuleResult:
                 r.fail('_split_and_expr:true', 'a literal true conjunct has effects', fi.where)
             seen['true'] = True
             continue
-        expr = dict(binds).get('expr')
-        transformed = _fname(expr) == '_and_presplit_transform' if expr is not None else False
+        expr = next((v for _, v in binds if _fname(v) == '_and_presplit_transform'), None)
+        transformed = expr is not None
         sh = Shapes()
         for g, pol in pg:
             if _lit_test(g) is None:
